@@ -101,13 +101,13 @@ def build_jobs(prop, plan, tier, seed, known_sigs):
         if not b:
             failed.append(dict(spec=sp['id'], cfg=c, log=log[-1500:]))
             continue
-        jobs.append(dict(spec=sp, cfg=c, bin=b, prop=prop, oracle=plan['oracle'], cp=plan['cp'], max_examples=nex,
+        jobs.append(dict(spec=sp, cfg=c, bin=b, prop=prop, oracle=plan['oracle'], cp=(dict(plan['cp'], **plan.get('cp_mp11', {})) if c >= 5 else plan['cp']), max_examples=nex,
                          seed=seed, known_sigs=tuple(known_sigs), env=plan.get('env'), tier=tier, mode=plan.get('mode'),
                          keep_cases=plan.get('keep_cases', 0)))
     return specs, jobs, failed
 
 
-def replay_failure(prop, plan, spec, cfg, concrete, times=3):
+def replay_failure(prop, plan, spec, cfg, concrete, times=3, fault=None):
     """re-run a concrete case through the plain path (no Hypothesis); returns list of failure messages (None = passed)."""
     from . import oracles
     if plan.get('multi'):
@@ -127,9 +127,19 @@ def replay_failure(prop, plan, spec, cfg, concrete, times=3):
                 per_op = ex.replay(concrete)
             except (SUT.SutCrash, SUT.SutHang) as e:
                 out.append('SUT crashed rc=%s %s' % (e.rc, (e.err or '')[-300:]))
+                e.cfg = cfg
                 sig = engine.crash_sig(e, concrete)
                 continue
             ctx = oracles.Ctx(spec, static, cfg, concrete, per_op, dict(prop=prop, tier='replay', idmap=s.idmap))
+            try:
+                if plan.get('mode') == 'copy':
+                    ctx.extra = engine.copy_refs(ex, concrete, per_op)
+                elif plan.get('mode') == 'fault_enum' and fault:
+                    ctx.extra = dict(fault_index=fault['fault_index'], k=fault['k'],
+                                     baseline=engine.fault_baseline(ex, concrete, fault['fault_index'], fault['k']))
+            except (SUT.SutCrash, SUT.SutHang) as e:
+                out.append('SUT crashed rc=%s' % e.rc)
+                continue
             try:
                 getattr(oracles, plan['oracle'])(ctx)
                 out.append(None)
@@ -144,7 +154,7 @@ def replay_failure(prop, plan, spec, cfg, concrete, times=3):
 def save_replay(prop, spec, cfg, fail):
     os.makedirs(REPLAYS_NEW, exist_ok=True)
     body = dict(property=prop, spec=spec, cfg=cfg, cfg_name=build.CONFIGS[cfg], case=fail['case'], msg=fail['msg'],
-                sig=fail.get('sig'), detail=fail.get('detail'), line=cases.to_line(fail['case']))
+                sig=fail.get('sig'), detail=fail.get('detail'), line=cases.to_line(fail['case']), fault=fail.get('fault'))
     h = hashlib.sha256(json.dumps(body, sort_keys=True, default=str).encode()).hexdigest()[:10]
     p = os.path.join(REPLAYS_NEW, '%s_%s_%s.json' % (prop, build.CONFIGS[cfg], h))
     json.dump(body, open(p, 'w'), indent=1, default=str)
@@ -191,7 +201,7 @@ def run_check(prop, tier):
         wit = os.path.join(VERIF, k['witness']) if k.get('witness') else None
         if wit and os.path.exists(wit):
             w = json.load(open(wit))
-            msgs, sig = replay_failure(prop, plan, w['spec'], w['cfg'], w['case'], times=1)
+            msgs, sig = replay_failure(prop, plan, w['spec'], w['cfg'], w['case'], times=1, fault=w.get('fault'))
             if msgs[0] is not None and sig == k['sig']:
                 out_lines.append('KNOWN-FINDING: property=%s %s' % (prop, k['text']))
             elif msgs[0] is None:
@@ -203,9 +213,9 @@ def run_check(prop, tier):
         if w.get('sig') in known_sigs:
             continue
         reg_total += 1
-        msgs, sig = replay_failure(prop, plan, w['spec'], w['cfg'], w['case'], times=1)
+        msgs, sig = replay_failure(prop, plan, w['spec'], w['cfg'], w['case'], times=1, fault=w.get('fault'))
         if msgs[0] is not None and sig not in known_sigs:
-            msgs3, sig3 = replay_failure(prop, plan, w['spec'], w['cfg'], w['case'], times=3)
+            msgs3, sig3 = replay_failure(prop, plan, w['spec'], w['cfg'], w['case'], times=3, fault=w.get('fault'))
             if all(m is not None for m in msgs3):
                 reg_fail += 1
                 out_lines.append('VIOLATION property=%s replay=%s' % (prop, p))
@@ -220,7 +230,7 @@ def run_check(prop, tier):
             rc = 1
             confirmed += 1
             continue
-        msgs, sig = replay_failure(prop, plan, job['spec'], job['cfg'], f['case'], times=3)
+        msgs, sig = replay_failure(prop, plan, job['spec'], job['cfg'], f['case'], times=3, fault=f.get('fault'))
         if all(m is not None for m in msgs):
             p = save_replay(prop, job['spec'], job['cfg'], f)
             out_lines.append('VIOLATION property=%s replay=%s' % (prop, p))
